@@ -372,7 +372,28 @@ fn run_case(seed: u64, idx: u64, _tier: Tier, out: &mut CaseOut) {
         out.inc("deletion_comparisons");
         // colour rules are allowed in the sheets: rich lines are compared
         // without their colour annotations
-        let (a, b, ev): (Outcome<String>, Outcome<String>, Vec<Event>) = if plain {
+        let (a, b, ev): (Outcome<String>, Outcome<String>, Vec<Event>) = if rng.chance(1, 4) {
+            // the three-step API (parse_html, dom_to_render_tree, render_to_*) must hide the same
+            out.inc("via_three_step_api");
+            let st = render_staged(&cfg_css, &input, &[w]);
+            let (s, l) = match st {
+                Outcome::Ok(mut v) if v.len() == 1 => v.remove(0),
+                Outcome::Ok(_) => (Outcome::Err("staged result missing".into()), Outcome::Err("staged result missing".into())),
+                Outcome::TooNarrow => (Outcome::TooNarrow, Outcome::TooNarrow),
+                Outcome::Err(e) => (Outcome::Err(e.clone()), Outcome::Err(e)),
+                Outcome::Panic { msg, loc } => (Outcome::Panic { msg: msg.clone(), loc: loc.clone() }, Outcome::Panic { msg, loc }),
+                Outcome::Fuel { site } => (Outcome::Fuel { site: site.clone() }, Outcome::Fuel { site }),
+            };
+            if plain {
+                (s, render_string(&cfg_plain, &deleted, w), Vec::new())
+            } else {
+                (
+                    l.map(|l| format!("{:#?}", strip_colours(l))),
+                    render_lines(&cfg_plain, &deleted, w).map(|l| format!("{:#?}", strip_colours(l))),
+                    Vec::new(),
+                )
+            }
+        } else if plain {
             let t = render_string_traced(&cfg_css, &input, w);
             (t.out, render_string(&cfg_plain, &deleted, w), t.events)
         } else {
